@@ -64,9 +64,9 @@ type Expect struct {
 	Schema string // for per-schema / per-table SHOW statements
 	Table  string
 	Query  string
-	Cols  []string // result column names to project (matched case-insensitively)
-	KeyN  int      // the first KeyN columns identify a row
-	Rows  []Row
+	Cols   []string // result column names to project (matched case-insensitively)
+	KeyN   int      // the first KeyN columns identify a row
+	Rows   []Row
 }
 
 func sortedKeys[V any](m map[string]V) []string {
